@@ -539,6 +539,10 @@ class Fn:
                 # field of a known aggregate -> the operand
                 if cur[0] == 'agg' and e['i'] < len(cur[2]) and cur[1] in ('tuple',) :
                     cur = cur[2][e['i']]
+                elif cur[0] == 'agg' and str(cur[1]).startswith('closure:') and e['i'] < len(cur[2]) and '{closure' in e.get('adt', ''):
+                    cur = cur[2][e['i']]   # capture of a known closure value (inlined closure body)
+                elif cur[0] == 'deref' and cur[1][0] == 'agg' and str(cur[1][1]).startswith('closure:') and e['i'] < len(cur[1][2]) and '{closure' in e.get('adt', ''):
+                    cur = cur[1][2][e['i']]
                 else:
                     cur = ('field', cur, nm, e.get('adt', ''))
             elif k == 'index':
@@ -1416,12 +1420,75 @@ def _retarget_term(t, boff):
     return t
 
 
-def inline_new_helpers(P, baseline, max_depth=3, max_blocks=120):
-    """inline calls to local non-closure functions that are not in `baseline` (set of fn keys); returns list of (caller, callee)"""
+FN_TRAIT_CALLS = ('std::ops::FnOnce::call_once', 'std::ops::FnMut::call_mut', 'std::ops::Fn::call')
+
+
+def _reset_fn(f):
+    f._cache = {}
+    f._names = {}
+    for d in f.dbg:
+        if not d['p']['pr']:
+            f._names.setdefault(d['p']['l'], d['n'])
+
+
+def _devirtualize(P, f):
+    """calls through the Fn* traits whose callee value is a known function item or closure (typically a callback handed to
+    an inlined helper) become direct calls; returns the number of rewritten sites"""
+    n = 0
+    for b in range(len(f.blocks)):
+        t = f.blocks[b]['t']
+        if t['k'] != 'call' or t.get('devirt') or len(t['args']) != 2:
+            continue
+        if strip_generics(t.get('callee') or '') not in FN_TRAIT_CALLS:
+            continue
+        r = strip_generics(t['res']) if t.get('res') else None
+        if r and r in P.fns and r not in FN_TRAIT_CALLS:
+            continue   # rustc resolved it already
+        tree = peel(f.expr_operand(t['args'][0], b, 'T'))
+        target = None
+        env = []
+        if tree[0] == 'fnitem' and tree[1] in P.fns:
+            target = tree[1]
+        elif tree[0] == 'agg' and str(tree[1]).startswith('closure:') and tree[1][len('closure:'):] in P.fns:
+            target = tree[1][len('closure:'):]
+            env = [t['args'][0]]
+        if target is None:
+            continue
+        tup = t['args'][1]
+        if not (tup['k'] in ('copy', 'move') and not tup['p']['pr']):
+            continue
+        tl = tup['p']['l']
+        arity = None
+        for st in f.blocks[b]['s']:
+            if st['k'] == 'assign' and st['p']['l'] == tl and not st['p']['pr'] and st['r']['k'] == 'agg':
+                arity = len(st['r']['ops'])
+        if arity is None:
+            continue
+        args = env + [{'k': 'move', 'p': {'l': tl, 'pr': [{'k': 'field', 'i': j, 'adt': '(tuple)'}]}} for j in range(arity)]
+        if len(args) != P.fns[target].argc:
+            continue
+        nt = dict(t)
+        nt['callee'] = target
+        nt['res'] = target
+        nt['args'] = args
+        nt['devirt'] = True
+        nt.pop('trait', None)
+        f.blocks[b]['t'] = nt
+        n += 1
+    if n:
+        _reset_fn(f)
+    return n
+
+
+def inline_new_helpers(P, baseline, max_depth=4, max_blocks=120):
+    """inline calls to local non-closure functions that are not in `baseline` (set of fn keys), then turn callback calls
+    with a known target into direct calls (closures given to an inlined helper are inlined as well);
+    returns list of (caller, callee)"""
     done = []
     for f in list(P.fn_list):
         if f.kind == 'promoted':
             continue
+        touched = False
         for _ in range(max_depth):
             sites = []
             for b in range(len(f.blocks)):
@@ -1430,21 +1497,26 @@ def inline_new_helpers(P, baseline, max_depth=3, max_blocks=120):
                     continue
                 k = strip_generics(t['res']) if t.get('res') else (strip_generics(t['callee']) if t.get('callee') else None)
                 g = P.fns.get(k) if k else None
-                if g is None or g is f or g.kind in ('closure', 'promoted') or k in baseline:
+                if g is None or g is f or g.kind == 'promoted':
+                    continue
+                if g.kind == 'closure':
+                    if not t.get('devirt'):
+                        continue
+                elif k in baseline:
                     continue
                 if len(g.blocks) > max_blocks or f.key in _reach_keys(P, g, 4):
                     continue
                 sites.append((b, g))
-            if not sites:
-                break
             for b, g in sites:
                 _inline_site(f, b, g)
                 done.append((f.key, g.key))
-            f._cache = {}
-            f._names = {}
-            for d in f.dbg:
-                if not d['p']['pr']:
-                    f._names.setdefault(d['p']['l'], d['n'])
+            if sites:
+                touched = True
+                _reset_fn(f)
+            if not touched:
+                break
+            if not _devirtualize(P, f) and not sites:
+                break
     P._cg = None
     P._callers = None
     return done
